@@ -70,7 +70,7 @@ func c18Gen(tp *Tape, env *Env, maxRunners int) (*c18Plan, []*Program) {
 			MaxNodes: tp.Int(3, 6, "maxnodes"), MaxStmts: 4, MaxDepth: 2, MaxTotal: 20,
 			WLine: 9, WOptions: 4, WIf: 3, WSet: 4, WJump: 3, WJumpE: 1, WStop: 1, WCall: 2, WCommand: 2,
 			NVars: [3]int{2, 1, 1}, NJVars: 1, Probes: true, Visited: true, Random: tp.Bool("random"), ExprDepth: 2,
-			InlinePct: 35, CondPct: 30, VarLines: true, Builtins: true, MoreBuiltins: 20, CountLines: tp.Chance(30, "countlines"), MarkupLines: true,
+			InlinePct: 35, CondPct: 30, VarLines: true, Builtins: true, MoreBuiltins: 20, NoStringSelfGrowth: true, CountLines: tp.Chance(30, "countlines"), MarkupLines: true,
 		}
 		if tp.Bool("cmds") {
 			cfg.Handlers = drawHandlers(tp, 2)
